@@ -93,7 +93,12 @@ package formula
 // error is logged.
 //@ spec fragCh(c int) bool := isDigitCh(c) || c == '_'
 //@ spec rec fragEnd(t string, p int) int := (p >= 0 && p < len(t) && fragCh(t[p])) ? fragEnd(t, p + 1) : p
-//@ spec rec strip(t string, a int, b int) string := b <= a ? "" : (t[b-1] == '_' ? strip(t, a, b-1) : strip(t, a, b-1) ++ t[b-1:b])
+// stripF(t, a, p): the digits of the run that continues at p, preceded by the digits t[a:p] already
+// passed since the last separator - the run without its underscores. stripF(t, p, p) is the
+// value of the fragment that starts at p.
+//@ spec rec stripF(t string, a int, p int) string := (p < 0 || p >= len(t) || !fragCh(t[p])) ? t[a:p] : (t[p] == '_' ? t[a:p] ++ stripF(t, p + 1, p + 1) : stripF(t, a, p + 1))
+// strip(t, a, b), for b the end of the run that starts at a, is that run without underscores
+//@ spec strip(t string, a int, b int) string := stripF(t, a, a)
 //@ spec sepBad(t string, a int, p int) bool := exists i int :: a <= i && i < p && t[i] == '_' && (i == a || !isDigitCh(t[i-1]))
 //@ spec sepErr(t string, a int, p int) bool := sepBad(t, a, p) || (p > a && t[p-1] == '_')
 //@ spec hasSep(t string, a int, p int) bool := exists i int :: a <= i && i < p && t[i] == '_'
@@ -107,14 +112,14 @@ package formula
 //@   ensures scanFrame(s) && s.pos >= old(s.pos) && nd(s) >= old(nd(s))
 //@   ensures old(s.pos) < s.end && isDigitCh(old(cur(s))) ==> s.pos > old(s.pos)
 //@   ensures[C12] s.pos == fragEnd(s.text, old(s.pos))
-//@   ensures[C12] result == strip(s.text, old(s.pos), s.pos)
+//@   ensures[C12] result == stripF(s.text, old(s.pos), old(s.pos))
 //@   ensures[C12] sepErr(s.text, old(s.pos), s.pos) ==> errd(s)
 //@   ensures[C12] !sepErr(s.text, old(s.pos), s.pos) ==> nd(s) == old(nd(s))
 //@   ensures[C12] sepFlag(s) == (old(sepFlag(s)) || hasSep(s.text, old(s.pos), s.pos))
 //@   loop 1: invariant scanFrame(s) && old(s.pos) <= start && start <= s.pos && 0 <= underlineStart && underlineStart <= s.pos
 //@           invariant nd(s) >= old(nd(s))
 //@           invariant[C12] fragEnd(s.text, s.pos) == fragEnd(s.text, old(s.pos))
-//@           invariant[C12] result.contents ++ s.text[start:s.pos] == strip(s.text, old(s.pos), s.pos)
+//@           invariant[C12] result.contents ++ stripF(s.text, start, s.pos) == stripF(s.text, old(s.pos), old(s.pos))
 //@           invariant[C12] allowSeparator == (s.pos > old(s.pos) && isDigitCh(s.text[s.pos-1])) && (!allowSeparator ==> start == s.pos)
 //@           invariant[C12] isPreviousTokenSeparator ==> s.pos > old(s.pos) && s.text[s.pos-1] == '_' && underlineStart == s.pos - 1
 //@           invariant[C12] s.pos > old(s.pos) && s.text[s.pos-1] == '_' ==> isPreviousTokenSeparator || sepBad(s.text, old(s.pos), s.pos)
@@ -333,13 +338,13 @@ package formula
 
 //@ spec kw(text string) int := text == "true" ? SK_TrueKeyword : text == "false" ? SK_FalseKeyword : text == "null" ? SK_NullKeyword : text == "this" ? SK_ThisKeyword : text == "ctx" ? SK_CtxKeyword : text == "typeof" ? SK_TypeofKeyword : SK_Unknown
 
-// TODO(verify init): the keyword table is built by init from tokens[]; until init is
-// under contract this is an assumption.
+// The keyword table is built by init#2 from the token text table (see "Tables built at package
+// initialisation" at the end of this file); KeywordFromString is verified against it.
 //@ func KeywordFromString
-//@   trusted
+//@   tags [C14]
 //@   panics never
 //@   noalloc
-//@   ensures result == kw(text)
+//@   ensures[C14] result == kw(text)
 
 //@ func (*Scanner).peek
 //@   tags [C14,C01]
@@ -855,7 +860,8 @@ package formula
 //@   ensures[C01] err == nil ==> okx(source.Expression) && source.EndOfFileToken != nil && source.EndOfFileToken.Token == SK_EndOfFile
 //@   ensures[C15] err == nil ==> source.pos == 0 && source.end == len(content) && xpos(source.Expression) == 0
 //@   ensures[C15] source != nil && len(source.Diagnostics) > 0 ==> lt(source.LineStarts, content)
-//@   ensures[C15] source != nil && len(source.Diagnostics) > 0 && source.Diagnostics[0].Start <= len(content) ==> (exists l int, c int :: lineCol(source.LineStarts, source.Diagnostics[0].Start, l, c) && errMsg(err) == fmtDiag(l, c, toLowerS(catName(source.Diagnostics[0].Category)), source.Diagnostics[0].Code, source.Diagnostics[0].MessageText))
+//@   ensures[C15] source != nil && len(source.Diagnostics) > 0 && source.Diagnostics[0].Start <= len(content) ==> lineCol(source.LineStarts, source.Diagnostics[0].Start, posOfT(content, source.Diagnostics[0].Start).Line, posOfT(content, source.Diagnostics[0].Start).Column)
+//@   ensures[C15] source != nil && len(source.Diagnostics) > 0 ==> errMsg(err) == fmtDiag(posOfT(content, source.Diagnostics[0].Start).Line, posOfT(content, source.Diagnostics[0].Start).Column, toLowerS(catName(source.Diagnostics[0].Category)), source.Diagnostics[0].Code, source.Diagnostics[0].MessageText)
 
 // ---------------------------------------------------------------------------
 // Line table
@@ -911,6 +917,9 @@ package formula
 //@   panics never
 //@   ensures result == file.LineStarts && lt(result, file.Text)
 
+// posOfT(t, off): the name of the position the helper computes for offset off in text t
+// (it is characterised by lineCol against the line table of t).
+//@ spec posOfT(t string, off int) Position
 //@ func GetFileLineAndCharacterFromPosition
 //@   tags [C15,C01]
 //@   requires file != nil && position >= 0 && (len(file.LineStarts) > 0 ==> lt(file.LineStarts, file.Text))
@@ -918,6 +927,7 @@ package formula
 //@   panics never
 //@   ensures lt(file.LineStarts, file.Text)
 //@   ensures[C15] position <= len(file.Text) ==> lineCol(file.LineStarts, position, result.Line, result.Column)
+//@   defines result == posOfT(file.Text, position)
 
 //@ func PositionToLineAndCharacter
 //@   tags [C15]
@@ -933,7 +943,8 @@ package formula
 //@   assigns source.LineStarts
 //@   panics never
 //@   ensures lt(source.LineStarts, source.Text)
-//@   ensures[C15] diagnostic.Start <= len(source.Text) ==> (exists l int, c int :: lineCol(source.LineStarts, diagnostic.Start, l, c) && result == fmtDiag(l, c, toLowerS(catName(diagnostic.Category)), diagnostic.Code, diagnostic.MessageText))
+//@   ensures[C15] diagnostic.Start <= len(source.Text) ==> lineCol(source.LineStarts, diagnostic.Start, posOfT(source.Text, diagnostic.Start).Line, posOfT(source.Text, diagnostic.Start).Column)
+//@   ensures[C15] result == fmtDiag(posOfT(source.Text, diagnostic.Start).Line, posOfT(source.Text, diagnostic.Start).Column, toLowerS(catName(diagnostic.Category)), diagnostic.Code, diagnostic.MessageText)
 
 // ---------------------------------------------------------------------------
 // Evaluator: values
@@ -2131,3 +2142,22 @@ package formula
 //@   tags [C08,C09]
 //@   requires file != nil && (len(file.LineStarts) > 0 ==> lt(file.LineStarts, file.Text))
 //@   assigns file.LineStarts
+
+// ---------------------------------------------------------------------------
+// Tables built at package initialisation (C14, C16)
+// ---------------------------------------------------------------------------
+
+// The token text table at the six keyword positions (ground-evaluated on the initialiser).
+//@ globalfact len(tokens) > SK_TypeofKeyword && tokens[SK_TrueKeyword] == "true" && tokens[SK_FalseKeyword] == "false" && tokens[SK_NullKeyword] == "null" && tokens[SK_ThisKeyword] == "this" && tokens[SK_CtxKeyword] == "ctx" && tokens[SK_TypeofKeyword] == "typeof"
+
+// init#2 (types.go) fills the keyword table: exactly the six keywords of the statement, each mapped to
+// its token. Assumed by every other function (nothing else writes `keywords`).
+//@ initinv keywordTable by init#2: keywords != nil && (forall k string :: mapHas(keywords, k) == (kw(k) != SK_Unknown)) && (forall k string :: mapHas(keywords, k) ==> keywords[k] == kw(k))
+//@ func init#2
+//@   tags [C14]
+//@   assigns global(keywords)
+//@   panics never
+//@   loop 1: invariant keywords != nil && fresh(keywords) && SK_FirstKeyword <= i && i <= SK_LastKeyword + 1
+//@           invariant[C14] forall k string :: mapHas(keywords, k) == (kw(k) != SK_Unknown && kw(k) < i)
+//@           invariant[C14] forall k string :: mapHas(keywords, k) ==> keywords[k] == kw(k)
+//@           decreases SK_LastKeyword + 1 - i
